@@ -153,8 +153,9 @@ def op_metadata(signed_ok, via='store'):
             if not signed_ok:
                 x = x.replace('https://idpa.example/sso', 'https://evil.example/sso')
             import os
-            p = os.path.join(TMP[0], 'fed-%s.xml' % signed_ok)
-            open(p, 'w').write(x)
+            p = os.path.join(TMP[0], 'fed-%s-%d.xml' % (signed_ok, os.getpid()))      # (one file per worker process)
+            with open(p, 'w') as f:
+                f.write(x)
             _c[k] = (p, x)
         path, text = _c[k]
         node = 'urn:oasis:names:tc:SAML:2.0:metadata:EntityDescriptor'
